@@ -108,9 +108,9 @@ func (b *branchless) asSelf() error { return errNone }
 var errNone = errors.New("verif: no self match")
 
 func runC13(c *core.Ctx, r *core.Result) {
-	p := plan{fullDepth: 2, coreDepth: 4, alphabet: tm.REGE}
+	p := plan{dupDepth: 2, fullDepth: 2, coreDepth: 4, alphabet: tm.REGE}
 	if c.Thorough() {
-		p = plan{fullDepth: 3, coreDepth: 5, alphabet: tm.REGE}
+		p = plan{dupDepth: 2, fullDepth: 3, coreDepth: 5, alphabet: tm.REGE}
 	}
 	r.Bounds = p.String() + " restricted to trees with at least one visible multi-cause node; stages local, hop_K, hop_K^2, unknowing hop U(all)>K and evaluated at U(all)"
 	r.Rule = "state = (term, stage); non-trivial = a reference or As target matches through a branch (the tree semantics is exercised) ; outcome = class of the outermost constructor"
